@@ -109,6 +109,7 @@ type pathState struct {
 var P *pathState
 
 func newPath(prefix []Choice, solver *Solver) *pathState {
+	randBudget, randDet = -1, 0 // (verifrt.RandBudget is per path)
 	p := &pathState{prefix: prefix, solver: solver}
 	p.res = &PathResult{Asserts: map[string]int{}, Reached: map[string]int{}, Covered: map[string]bool{}, CoverSeen: map[string]bool{}, Notes: map[string]string{}}
 	p.maxDec = 200000
